@@ -30,7 +30,11 @@ theorem C16_simulate_symmetric (c : PC K) (a b : PD K) :
   simulate_symm c a b
 
 /-- "unchanged when the two detectors are exchanged" — the estimate for the pair: exchanging the per-detector
-    ingredients of every scatter point and the two incidence cosines of `detection_efficiency_no_scatter` -/
+    ingredients of every scatter point and the two incidence cosines of `detection_efficiency_no_scatter`.
+    The two cosines (and the per-detector `cosInc`, `r2`, … of every scatter point) are separate inputs, so this is the
+    statement for BlocksOnCylindrical scanners too, where the two crystals of a pair sit at different radii and
+    `cosA ≠ cosB`; the correspondence run feeds the model the cosine the implementation computed for EACH detector
+    (`est` / `effns` operations on generated blocks templates). -/
 theorem C16_estimate_symmetric (pts : List (PC K × PD K × PD K)) (rAB2 eff511 cosA cosB pi vol sigma : K) :
     actualScatterEstimate (swapPts pts) (detectionEfficiencyNoScatter rAB2 eff511 cosB cosA pi) vol sigma =
       actualScatterEstimate pts (detectionEfficiencyNoScatter rAB2 eff511 cosA cosB pi) vol sigma :=
@@ -101,6 +105,15 @@ example : exC.Nonneg ∧ exA.Nonneg ∧ exB.Nonneg := by
 example : actualScatterEstimate [(exC, exA, exB)] (detectionEfficiencyNoScatter 400 1 (1/2) (1/2) 3) 8 2 ≠ 0 := by
   norm_num [actualScatterEstimate, sumOverScatterPoints, detectionEfficiencyNoScatter, simulateForOneScatterPoint,
     scatterRatioFormula, exC, exA, exB]
+
+/-- why `detection_efficiency_no_scatter` needs the cosine of each detector: with the square of the cosine of the
+    first detector (the same on a cylinder, not on flat blocks) the normalisation of (A,B) and of (B,A) differ -/
+example : detectionEfficiencyNoScatter (400 : ℚ) 1 (1/2) (1/2) 3 ≠ detectionEfficiencyNoScatter 400 1 (1/4) (1/4) 3 := by
+  norm_num [detectionEfficiencyNoScatter]
+
+/-- … while with both cosines the exchange changes nothing although `cosA ≠ cosB` -/
+example : detectionEfficiencyNoScatter (400 : ℚ) 1 (1/2) (1/4) 3 = detectionEfficiencyNoScatter 400 1 (1/4) (1/2) 3 := by
+  norm_num [detectionEfficiencyNoScatter]
 
 /-! ### cache -/
 
@@ -188,8 +201,41 @@ def C16_history_eq_fresh_full : Prop :=
   ∀ (W : World) (ops : List Op) (s : St), run W init ops = some s →
     (process W s).2.1 ≠ .crash ∧ ∀ o, (process W s).2 = (.ok, some o) → freshOut W s = (.ok, some o)
 
-/-- after ANY history of setters / `set_up` / `process_data` / explicit down-sampling calls, of any length, in which
-    every operation satisfies the guard `opOk` (no `set_exam_info` while `detector_efficiency_no_scatter` is cached,
+/-- "after any sequence of changes to the activity image, attenuation image, scatter-point image …" — a change made IN
+    PLACE by the owner of an image, followed by the setter with the SAME pointer (what `ScatterEstimation::process_data`
+    does with the activity image in every iteration), is a change like any other: the setters
+    `set_activity_image_sptr` / `set_density_image_sptr` / `set_density_image_for_scatter_points_sptr` assign and
+    invalidate unconditionally (they do not compare the pointer they get with the one they hold), so the event leaves the
+    object in exactly the state of the setter called with a new image of those values … -/
+theorem C16_inplace_same_pointer_invalidates_like_new_pointer (W : World) (s : St) (k : Nat) :
+    step W s (.setActivityInPlace k) = step W s (.setActivity (some k)) ∧
+    step W s (.setDensityInPlace k) = step W s (.setDensity (some k)) ∧
+    step W s (.setSpImageInPlace k) = step W s (.setSpImage (some k)) :=
+  step_inPlace_eq W s k
+
+/-- … in particular, whatever the object held before: the new values are the current ones, the cache of activity
+    integrals is gone, and a `set_up` is required (for the attenuation image: the attenuation cache and the derived
+    scatter-point image are gone) -/
+theorem C16_inplace_same_pointer_clears (W : World) (s : St) (k : Nat) :
+    ((step W s (.setActivityInPlace k)).1.act = some k ∧ (step W s (.setActivityInPlace k)).1.actCache = none ∧
+      (step W s (.setActivityInPlace k)).1.alreadySetUp = false) ∧
+    ((step W s (.setDensityInPlace k)).1.att = some k ∧ (step W s (.setDensityInPlace k)).1.attCache = none ∧
+      (step W s (.setDensityInPlace k)).1.spImage = none ∧ (step W s (.setDensityInPlace k)).1.alreadySetUp = false) :=
+  ⟨⟨rfl, rfl, rfl⟩, ⟨rfl, rfl, rfl, rfl⟩⟩
+
+/-- non-vacuity: a guarded history with in-place changes of all three images (on a BlocksOnCylindrical template that was
+    down-sampled explicitly) at the end of which `process` succeeds and is fresh; and an object that really holds a filled
+    activity cache before the in-place event -/
+example : (runGuarded W0 init histInPlace).isSome = true ∧ freshAfter W0 histInPlace = true :=
+  ⟨histInPlace_guarded, histInPlace_fresh⟩
+
+example : ∃ s, run W0 init (baseConfig ++ [.setUp, .process]) = some s ∧ s.actCache ≠ none ∧
+    (step W0 s (.setActivityInPlace 1)).1.actCache = none := by
+  refine ⟨_, rfl, ?_, rfl⟩
+  decide
+
+/-- after ANY history of setters (with a new pointer or in place with the same pointer) / `set_up` / `process_data` /
+    explicit down-sampling calls (cylindrical and BlocksOnCylindrical templates), of any length, in which every operation satisfies the guard `opOk` (no `set_exam_info` while `detector_efficiency_no_scatter` is cached,
     no threshold / zoom change while a scatter-point image derived with the old value exists, no enabling of the cache
     on a set-up object, `downsample_scanner_bool` off): `process_data` does not touch unallocated cache storage, and
     if it succeeds, everything it reads — scatter points, detection points, every cached or computed activity /
